@@ -746,3 +746,36 @@ def narrow_index_obligations(model, rep, fns, clause, rule="NARROW"):
                f"`{norm_src(bad[0])[:70]}` narrows the arg-max: with more than 256 candidates the reported index wraps around" if bad else "",
                node=(bad[0] if bad else fn.node), fn=fn, clause=clause, stmt=(None if bad else f"def {fn.name} index width"))
     return n
+
+
+# ----------------------------------------------------------------------------------------------------------------------------------------------------------
+# LOOPVAR - a per-iteration conversion must not overwrite the value it converts
+
+
+def loop_carried_parameter_obligations(model, rep, fns, clause, rule="LOOPVAR"):
+    """Inside `for item in items:` an assignment `p = f(p, item)` to a *parameter* p (or a name bound before the loop) that reads both p and the loop variable
+    compounds from one iteration to the next: `max_shifts = max_shifts / loader.scale` gives the k-th loader max_shifts / scale**k.  A per-item conversion needs a
+    name of its own.  (Accumulators such as `total = total + x` are initialised locally, not parameters; augmented assignment is not matched.)"""
+    n = 0
+    for fn in fns:
+        params = set(fn.param_names())
+        for lp in walk_no_nested(fn.node):
+            if not isinstance(lp, ast.For):
+                continue
+            lvars = {x.id for x in ast.walk(lp.target) if isinstance(x, ast.Name)}
+            if not lvars:
+                continue
+            n += 1
+            rep.instance(rule, fn.loc(lp))
+            bad = None
+            for st in ast.walk(lp):
+                if isinstance(st, ast.Assign) and len(st.targets) == 1 and isinstance(st.targets[0], ast.Name) and st.targets[0].id in params:
+                    p = st.targets[0].id
+                    names = {x.id for x in ast.walk(st.value) if isinstance(x, ast.Name)}
+                    if p in names and names & lvars:
+                        bad = st
+                        break
+            rep.ob(rule, fn.anchor, "a per-item conversion inside a loop does not overwrite the parameter it converts", bad is None,
+                   f"`{norm_src(bad)[:80]}` inside `for {norm_src(lp.target)} in ...`: the value is converted again on every iteration" if bad is not None else "",
+                   node=(bad if bad is not None else lp), fn=fn, clause=clause, stmt=(None if bad is not None else f"loop over {norm_src(lp.iter)[:40]} in {fn.name}"))
+    return n
